@@ -73,7 +73,7 @@ def _j(x):
 # ------------------------------------------------------------------------------------------ generators
 def random_tables(rng, max_samples=4, max_internal=4, max_breaks=3, L=None, internal_samples=True,
                   sites=True, metadata=True, integer_coords=True, individuals=False, populations=False,
-                  migrations=False):
+                  migrations=False, odd_flags=False):
     """a small VALID table collection built directly (no simulator): forests per interval, unary nodes,
     polytomies, multiple roots, isolated and internal samples, gaps"""
     ns = rng.randint(1, max_samples)
@@ -91,7 +91,10 @@ def random_tables(rng, max_samples=4, max_internal=4, max_breaks=3, L=None, inte
     times = [0.0] * ns + sorted(rng.choice([0.5, 1.0, 1.5, 2.0, 3.0]) + 0.01 * k for k in range(ni))
     for u, tm in enumerate(times):
         is_sample = u < ns or (internal_samples and rng.random() < 0.2)
-        t.nodes.add_row(flags=tskit.NODE_IS_SAMPLE if is_sample else 0, time=tm,
+        fl = tskit.NODE_IS_SAMPLE if is_sample else 0
+        if odd_flags and rng.random() < 0.3:
+            fl |= rng.choice([1 << 17, 1 << 18, 2, 1 << 20])       # e.g. msprime full-ARG / tsinfer flags
+        t.nodes.add_row(flags=fl, time=tm,
                         population=rng.randrange(-1, npop) if npop else -1,
                         individual=rng.randrange(-1, nind) if nind else -1,
                         metadata=(b"n%d" % u) if metadata and rng.random() < 0.7 else b"")
